@@ -310,6 +310,13 @@ def readonly_rule(prog, chk):
                          "unset can return from inside its scope walk without applying try_unset_in_map to the scope at hand (path %s): a binding is left in place "
                          "(and its readonly attribute is not consulted) — e.g. a value-less `local v` in a caller survives `unset v` in the callee and keeps shadowing the global" % (p[:8],))
 
+    # attributes shape later assignments: `declare -A m` without a value is still an associative array for every writer
+    from rules import c06
+    chk.rule("R9.5", "every yes/no test `is this an associative/indexed array` in brush_core counts the declared-but-unassigned kind too "
+                     "(shared contradiction rule, C06 R6.8): the -A / -a attribute shapes the first assignment")
+    nk9 = c06.array_kind_agreement(prog, chk, "R9.5", {"brush_core"}, "`declare -A m; printf -v 'm[key]' v` stores under 0")
+    chk.floor("R9.5", "array-kind decisions in brush_core", nk9, 4)
+
     # whole-variable replacement
     chk.rule("R9.1c", "ShellVariableMap::set (whole-variable replacement / shadowing) is only reached after a readonly test of the "
                       "visible variable of that name")
